@@ -25,7 +25,10 @@ Fixpoint lstrip (f : char -> bool) (s : str) : str :=
   | x :: r => if f x then lstrip f r else s
   end.
 
-Definition strip_ws (s : str) : str := rstrip is_space (lstrip is_space s).
+(* the whitespace int() skips on ASCII text (C isspace); text with non-ASCII
+   characters goes through a different CPython path and is outside the model *)
+Definition is_int_space (c : char) : bool := ((9 <=? c) && (c <=? 13) || N.eqb c 32)%N.
+Definition strip_ws (s : str) : str := rstrip is_int_space (lstrip is_int_space s).
 
 Definition py_int (s : str) : option Z :=
   let t := strip_ws s in
@@ -143,9 +146,9 @@ Proof.
   apply render_N_chars.
 Qed.
 
-Lemma int_char_not_space c : int_char c = true -> is_space c = false.
+Lemma int_char_not_space c : int_char c = true -> is_int_space c = false.
 Proof.
-  unfold int_char, is_space. intros H.
+  unfold int_char, is_int_space. intros H.
   apply orb_true_iff in H as [H|H].
   - apply N.eqb_eq in H; subst. reflexivity.
   - apply andb_true_iff in H as [H1 H2]. apply N.leb_le in H1, H2.
